@@ -72,17 +72,55 @@ def worker(ci: int, seed: int, thorough: bool) -> Part:
     return part
 
 
+def w_cross() -> Part:
+    """History independence across types: the JSON (name / dict) form of a value of type B written right after a value of type A.
+    Every ordered pair of enum types x every member name of B (after every member name of A that B also knows, and after one it
+    does not know); the result must be what B gives for the member itself."""
+    import json
+
+    part = Part()
+    enums = [c for c in classes() if issubclass(c, DPTEnum)]
+    for a in enums:
+        for b in enums:
+            if a is b:
+                continue
+            names_a = [m.name.lower() for m in a.data_type]
+            for mb in b.data_type:
+                nb = mb.name.lower()
+                try:
+                    want = b.to_knx(mb)
+                except Exception:  # noqa: BLE001
+                    continue
+                for na in ([nb] if nb in names_a else []) + names_a[:1]:
+                    part.evaluations += 1
+                    part.nontrivial += 1
+                    try:
+                        a.to_knx(json.loads(json.dumps(na)))
+                        got = b.to_knx(json.loads(json.dumps(nb)))
+                    except Exception as exc:  # noqa: BLE001
+                        part.viol(exc_sig(f"name-form-raises-after-other-type:{b.__name__}", exc), f"{a.__name__}.to_knx({na!r}) then {b.__name__}.to_knx({nb!r}): {exc!r}", ["cross", a.__name__, b.__name__, na, nb])
+                        continue
+                    if got != want:
+                        part.viol(f"value-changed-after-other-type:{b.__name__}", f"{a.__name__}.to_knx({na!r}) then {b.__name__}.to_knx({nb!r}) = {got!r}, the member itself encodes to {want!r}",
+                                  ["cross", a.__name__, b.__name__, na, nb], rank=(len(na),))
+    return part
+
+
 def run(ctx: Ctx) -> None:
     cl = classes()
     ctx.rule = (
         "every DPTComplex/DPTEnum class x the C07 payload space; non-trivial = payload decodes; its as_dict()/lower-case member name "
-        "goes through json.dumps(allow_nan=False)/json.loads, to_knx and from_knx and must compare equal (NaN==NaN)"
+        "goes through json.dumps(allow_nan=False)/json.loads, to_knx and from_knx and must compare equal (NaN==NaN); plus every ordered pair of enum types: the name form of a member of B written right after a name of A (the same name where both know it) encodes as the member itself"
     )
     ctx.bounds = {"classes": len(cl)}
     ctx.pmap(worker, [(i, ctx.seed, ctx.thorough) for i in range(len(cl))])
+    ctx.pmap(w_cross, [()])
     ctx.total.extra["classes"] = len(cl)
 
 
 def replay(case: Any) -> list[tuple[str, str]]:
+    if case and case[0] == "cross":
+        p = w_cross()
+        return [(sg, v[1]) for sg, v in p.viols.items()]
     cls = next(c for c in all_dpt_classes() if c.__name__ == case[0])
     return check_one(cls, unpl(case[1]))[1]
